@@ -52,8 +52,11 @@ class PF(T.P):
                 if self.peek() == '}': tail = m; break
                 self.accept(';'); stmts.append(('matchstmt', m)); continue
             e = self.expr()
+            if e[0] == 'macro' and e[1] == 'write': self.accept('?')
             if self.accept('+='):
                 r = self.expr(); self.expect(';'); stmts.append(('addassign', e, r)); continue
+            if self.peek() == '=' and e[0] == 'var':
+                self.next(); r = self.expr(); self.expect(';'); stmts.append(('assign', e[1], r)); continue
             if self.accept(';'): stmts.append(('expr', e)); continue
             tail = e; break
         self.expect('}'); self.no_struct = old
@@ -87,6 +90,8 @@ class PF(T.P):
         t = self.peek()
         if t == '!':
             self.next(); return ('not', self.postfix())
+        if t == '&' and self.peek(1) == 'mut':
+            self.next(); self.next(); return self.postfix()
         if t == '{':
             return ('block', self.block())
         if t == 'if':
@@ -171,6 +176,9 @@ class EF(T.Emit):
         return None
     def field(self, recv, f):
         r = self.expr(recv); t = self.ty(recv)
+        if t == 'partial':
+            m = {'major': 'p_major', 'minor': 'p_minor', 'patch': 'p_patch', 'pre_release': 'p_pre', 'build': 'p_build'}
+            if f in m: return '(%s %s)' % (m[f], r)
         if t == 'boundset' or f in ('lower', 'upper'):
             return '(bs_%s %s)' % (f, r)
         if f == '0': return r
@@ -273,6 +281,7 @@ class EF(T.Emit):
     def elem_ty(self, e):
         t = self.ty(e)
         if t == 'range': return 'boundset'
+        if t == 'idents': return 'ident'
         if t in ('versions', 'candidates'): return 'version'
         return 'version'
     def block_value(self, blk):
@@ -425,10 +434,213 @@ class EF(T.Emit):
         if p[0] in ('var', 'name') and p[1] in ('self', 'other', 'version'): return p[1] + '_'
         return super().pat(p, top)
 
+# ------------------------------------------------------------------ accumulating loops: state passing
+class EL(EF):
+    """Functions that build their result in mutable locals (`let mut acc = Vec::new(); for x in xs { .. acc.push(y) .. }`), without
+    early returns.  Every statement becomes a `let` that re-binds the variables it mutates; a `for` loop becomes
+    `fold_left (fun state x => body) xs state` with the mutated outer variables as state; an `if` / `if let` statement becomes a
+    `match` whose value is the state.  When the function can panic (`res` mode) compound statements and `res`-valued right-hand
+    sides are bound with `match .. with Ok x => .. | Panic => Panic end`, and a loop threads `res state`."""
+    def __init__(self, env, res=False, strings=()):
+        super().__init__(env, False, strings); self.res = res
+    # ---- which outer variables does a block mutate?
+    def mutated(self, blk, local=()):
+        out = []; local = set(local)
+        def add(v):
+            if v not in local and v not in out: out.append(v)
+        def walk(stmts, tail):
+            if tail is not None and ((tail[0] == 'method' and tail[2] in ('push', 'append', 'extend')) or (tail[0] == 'macro' and tail[1] == 'write')): stmts = list(stmts) + [('expr', tail)]
+            for s in stmts:
+                if s[0] == 'let':
+                    for v in self.pat_vars(s[1]): local.add(v)
+                elif s[0] == 'assign': add(s[1])
+                elif s[0] == 'expr':
+                    e = s[1]
+                    if e[0] == 'method' and e[2] in ('push', 'append', 'extend') and e[1][0] == 'var':
+                        add(e[1][1])
+                        if e[2] == 'append' and e[3] and e[3][0][0] == 'var': add(e[3][0][1])
+                    elif e[0] == 'macro' and e[1] == 'write': add('f')
+                    else: raise Unsupported('expression statement in an accumulating function')
+                elif s[0] == 'for':
+                    inner = self.mutated(s[3], local | set(self.pat_vars(s[1])))
+                    for v in inner: add(v)
+                elif s[0] == 'if':
+                    for b in (s[2], s[3]):
+                        if b is not None:
+                            for v in self.mutated(b, local): add(v)
+                elif s[0] == 'iflet':
+                    for b, extra in ((s[3], set(self.pat_vars(s[1]))), (s[4], set())):
+                        if b is not None:
+                            for v in self.mutated(b, local | extra): add(v)
+                else: raise Unsupported('statement %s in an accumulating function' % s[0])
+        walk(blk[0], blk[1])
+        return out
+    def is_res(self, e):
+        if not self.res: return False
+        if e[0] == 'method':
+            if e[2] == 'difference': return True
+            if e[2] in ('collect', 'flatten', 'iter', 'into_iter', 'clone'): return self.is_res(e[1])
+            if e[2] == 'filter_map' and e[3] and e[3][0][0] == 'closure': return self.is_res(e[3][0][2])
+        if e[0] == 'macro' and e[1] == 'write': return True
+        return False
+    def expr(self, e):
+        k = e[0]
+        if k == 'call' and e[1] in ('Vec::new',) and not e[2]: return '[]'
+        if k == 'call' and e[1] in ('Self', 'Range') and len(e[2]) == 1: return self.expr(e[2][0])
+        if k == 'method':
+            recv, name, args = e[1], e[2], e[3]
+            if name == 'difference' and len(args) == 1: return '(bs_difference %s %s)' % (self.expr(recv), self.expr(args[0]))
+            if name == 'collect' and not args: return self.expr(recv)
+            if name == 'flatten' and not args:
+                return ('(rmap (@concat _) %s)' if self.is_res(recv) else '(concat %s)') % self.expr(recv)
+            if name == 'filter_map' and args and args[0][0] == 'closure' and self.is_res(args[0][2]):
+                v, body = args[0][1], args[0][2]
+                return '(mfilter_map (fun %s => %s) %s)' % (T.ident(v), self.expr(body), self.expr(recv))
+        return super().expr(e)
+    # ---- state tuples
+    def tup(self, vs): return T.ident(vs[0]) if len(vs) == 1 else '(' + ', '.join(T.ident(v) for v in vs) + ')'
+    def tpat(self, vs): return T.ident(vs[0]) if len(vs) == 1 else "'(" + ', '.join(T.ident(v) for v in vs) + ')'
+    def okv(self, s): return '(Ok %s)' % s if self.res else s
+    def bind_state(self, vs, value, rest):
+        if not vs: raise Unsupported('a compound statement that changes nothing')
+        if self.res: return '(match %s with\n  | Ok %s => %s\n  | Panic => Panic\n  end)' % (value, self.tup(vs), rest)
+        return '(let %s := %s in\n  %s)' % (self.tpat(vs), value, rest)
+    def bind_value(self, pat, e, rest):
+        v = self.expr(e)
+        if self.is_res(e): return '(match %s with\n  | Ok %s => %s\n  | Panic => Panic\n  end)' % (v, pat, rest)
+        return '(let %s := %s in\n  %s)' % (pat, v, rest)
+    def stmts(self, stmts, tail, k):
+        """k: the Gallina text of the block's final value when it has no tail (the state of the enclosing loop / branch)"""
+        if tail is not None and k is not None and ((tail[0] == 'method' and tail[2] in ('push', 'append', 'extend')) or (tail[0] == 'macro' and tail[1] == 'write')):
+            stmts = list(stmts) + [('expr', tail)]; tail = None          # `{ acc.push(x) }`: a unit-valued last expression
+        if not stmts:
+            if tail is None:
+                if k is None: raise Unsupported('a block without value where one is needed')
+                return k
+            if tail[0] == 'ifexpr':
+                s = tail[1]
+                if s[0] != 'if' or s[3] is None: raise Unsupported('tail if form')
+                return '(if %s then %s else %s)' % (self.expr(s[1]), self.stmts(s[2][0], s[2][1], None), self.stmts(s[3][0], s[3][1], None))
+            if tail[0] == 'call' and tail[1] == 'Ok' and tail[2] == [('tuple', [])]:           # fmt: Ok(())
+                return self.okv('f')
+            return self.okv(self.expr(tail))
+        s = stmts[0]; rest = stmts[1:]
+        if s[0] == 'let':
+            pat, e = s[1], s[2]
+            if pat[0] not in ('var', 'name'): raise Unsupported('let pattern in an accumulating function')
+            self.bind(pat, self.ty(e))
+            return self.bind_value(T.ident(pat[1]), e, self.stmts(rest, tail, k))
+        if s[0] == 'assign':
+            return self.bind_value(T.ident(s[1]), s[2], self.stmts(rest, tail, k))
+        if s[0] == 'expr':
+            e = s[1]
+            if e[0] == 'macro' and e[1] == 'write':
+                w, isres = self.write_piece(e[2])
+                if isres and not self.res: raise Unsupported('write! of something that can panic in a function translated without Panic')
+                if isres:
+                    return '(match %s with\n  | Ok w__ => (let f := f ++ w__ in\n  %s)\n  | Panic => Panic\n  end)' % (w, self.stmts(rest, tail, k))
+                return '(let f := f ++ %s in\n  %s)' % (w, self.stmts(rest, tail, k))
+            x = T.ident(e[1][1]); name = e[2]; a = e[3][0]
+            if name == 'push': return '(let %s := %s ++ [%s] in\n  %s)' % (x, x, self.expr(a), self.stmts(rest, tail, k))
+            if name == 'extend': return '(let %s := %s ++ %s in\n  %s)' % (x, x, self.expr(a), self.stmts(rest, tail, k))
+            if name == 'append':
+                if a[0] != 'var': raise Unsupported('.append() of something that is not a variable')
+                y = T.ident(a[1])
+                return '(let %s := %s ++ %s in\n  (let %s := drained %s in\n  %s))' % (x, x, y, y, y, self.stmts(rest, tail, k))
+        if s[0] == 'for':
+            pat, coll, blk = s[1], s[2], s[3]
+            if blk[1] is not None: raise Unsupported('a for loop whose body has a value')
+            vs = self.mutated(blk, set(self.pat_vars(pat)))
+            saved = dict(self.env)
+            if pat[0] in ('var', 'name'):
+                self.env[pat[1]] = self.elem_ty(coll); xp = T.ident(pat[1]); c = self.expr(coll)
+            elif pat[0] == 'tuple' and coll[0] == 'method' and coll[2] == 'enumerate' and len(pat[1]) == 2:
+                i, x = pat[1]
+                self.env[i[1]] = 'nat'; self.env[x[1]] = self.elem_ty(coll[1]); xp = "'(%s, %s)" % (T.ident(i[1]), T.ident(x[1]))
+                c = '(enumerate %s)' % self.expr(coll[1])
+            else: raise Unsupported('for pattern')
+            body = self.stmts(blk[0], None, self.okv(self.tup(vs)))
+            self.env = saved
+            if self.res:
+                if xp.startswith("'"):
+                    loop = '(fold_left (fun acc__ ix__ => match acc__ with Ok %s => (let %s := ix__ in %s) | Panic => Panic end) %s (Ok %s))' % (self.tup(vs), xp, body, c, self.tup(vs))
+                else:
+                    loop = '(fold_left (fun acc__ %s => match acc__ with Ok %s => %s | Panic => Panic end) %s (Ok %s))' % (xp, self.tup(vs), body, c, self.tup(vs))
+            else:
+                loop = '(fold_left (fun %s %s => %s) %s %s)' % (self.tpat(vs), xp, body, c, self.tup(vs))
+            return self.bind_state(vs, loop, self.stmts(rest, tail, k))
+        if s[0] in ('if', 'iflet'):
+            vs = self.mutated(([s], None))
+            st = self.okv(self.tup(vs)) if vs else None
+            def branch(b, extra=()):
+                if b is None: return st
+                saved = dict(self.env)
+                r = self.stmts(b[0], b[1], st); self.env = saved
+                return r
+            if s[0] == 'iflet':
+                pat, e, b, els = s[1], s[2], s[3], s[4]
+                saved = dict(self.env)
+                for v in self.pat_vars(pat): self.env[v] = 'boundset' if self.ty(e) == 'optbs' else None
+                tb = branch(b); self.env = saved
+                val = '(match %s with\n  | %s => %s\n  | _ => %s\n  end)' % (self.expr(e), self.pat(pat), tb, branch(els))
+            else:
+                val = '(if %s then %s else %s)' % (self.expr(s[1]), branch(s[2]), branch(s[3]))
+            return self.bind_state(vs, val, self.stmts(rest, tail, k))
+        raise Unsupported('statement %s in an accumulating function' % s[0])
+    def compare(self, op, a, b):
+        if self.ty(a) == 'nat' or self.ty(b) == 'nat':
+            x, y = self.expr(a), self.expr(b)
+            return {'>': '(Nat.ltb %s %s)' % (y, x), '<': '(Nat.ltb %s %s)' % (x, y), '==': '(Nat.eqb %s %s)' % (x, y), '!=': '(negb (Nat.eqb %s %s))' % (x, y)}[op]
+        return super().compare(op, a, b)
+    def write(self, toks):
+        w, isres = self.write_piece(toks)
+        if isres and not self.res: raise Unsupported('write! of something that can panic in a function translated without Panic')
+        return '(rmap (fun w__ => f ++ w__) %s)' % w if isres else '(f ++ %s)' % w
+    def match(self, e):
+        # the payload types of the identifier constructors
+        for (pp, g, x) in e[2]:
+            if pp[0] == 'ctor' and pp[1] in ('Identifier::Numeric', 'Numeric') and pp[2] and pp[2][0][0] in ('var', 'name'): self.env[pp[2][0][1]] = 'N'
+            if pp[0] == 'ctor' and pp[1] in ('Identifier::AlphaNumeric', 'AlphaNumeric') and pp[2] and pp[2][0][0] in ('var', 'name'): self.env[pp[2][0][1]] = 'str'
+        return super().match(e)
+    def write_piece(self, toks):
+        """write!(f, "fmt", args..) -> (Gallina text of the appended string, can it panic?); every `{}` argument is printed by its type"""
+        if len(toks) < 3 or toks[0] != 'f' or not toks[2].startswith('__str'): raise Unsupported('write! form')
+        fmt = self.strings[int(toks[2][5:])]
+        groups = []; cur = []; depth = 0
+        for t in toks[3:]:
+            if t in '([{': depth += 1
+            if t in ')]}': depth -= 1
+            if t == ',' and depth == 0:
+                if cur: groups.append(cur)
+                cur = []
+            else: cur.append(t)
+        if cur: groups.append(cur)
+        parts = fmt.split('{}')
+        if len(parts) - 1 != len(groups): raise Unsupported('write! argument count')
+        pieces = []; anyres = False
+        for i, lit in enumerate(parts):
+            if lit: pieces.append(('pure', '[' + '; '.join(str(ord(c)) for c in lit) + ']'))
+            if i < len(groups):
+                e = PF(groups[i]).expr(); t = self.ty(e); x = self.expr(e)
+                if t == 'N': pieces.append(('pure', '(print_N %s)' % x))
+                elif t == 'ident': pieces.append(('pure', '(print_ident %s)' % x))
+                elif t == 'str': pieces.append(('pure', x))
+                elif t == 'version': pieces.append(('pure', '(vprint %s)' % x))
+                elif t == 'boundset': pieces.append(('res', '(bs_print %s)' % x)); anyres = True
+                else: raise Unsupported('write! of an argument of unknown type')
+        if not anyres:
+            return '(' + ' ++ '.join(p for _, p in pieces) + ')' if pieces else '[]', False
+        out = 'Ok []'
+        for kind, ptxt in reversed(pieces):
+            if kind == 'pure': out = 'rmap (fun r__ => %s ++ r__) (%s)' % (ptxt, out)
+            else: out = 'rbind %s (fun a__ => rmap (fun r__ => a__ ++ r__) (%s))' % (ptxt, out)
+        return '(' + out + ')', True
+
 # ------------------------------------------------------------------ the functions
 HEADER = """(* GENERATED by tools/translate_fn.py from /repo/src on every run -- do not edit *)
-From Semver Require Import Version Range RParse.
-From Coq Require Import Lia.
+From Semver Require Import Base Version Range RParse Loops LoopLemmas.
+From Coq Require Import Lia List.
+Import ListNotations.
 (* fallback when the source was rewritten into another, equivalent shape: split on every atomic test *)
 Ltac src_atoms := repeat (cbn [andb orb negb bs_lower bs_upper predicate]; match goal with
   | |- context [bs_intersect ?a ?b] => destruct (bs_intersect a b) eqn:?
@@ -455,7 +667,10 @@ def parse_block(text):
 def fn(src, header_re, env, panics=False):
     body = function_body(src, header_re)
     (stmts, tail), strings = parse_block(body)
-    e = EF(env, panics, strings)
+    if panics in ('loops', 'loops_res'):
+        e = EL(env, panics == 'loops_res', strings)
+    else:
+        e = EF(env, panics, strings)
     return e.stmts(stmts, tail, None)
 
 LIB = os.path.join(os.environ.get('VERIF_REPO', '/repo'), 'src', 'lib.rs'); RNG = os.path.join(os.environ.get('VERIF_REPO', '/repo'), 'src', 'range.rs')
@@ -463,6 +678,7 @@ SPLIT = 'repeat match goal with |- context [if ?c then _ else _] => destruct c e
 def defs():
     V = {'self': 'version', 'other': 'version'}
     B = {'self': 'boundset', 'other': 'boundset', 'version': 'version'}
+    R = {'self': 'range', 'other': 'range'}
     return {
       'is_prerelease': (LIB, r'pub\s+fn\s+is_prerelease\s*\(&self\)\s*->\s*bool\s*\{', V, False,
           'Definition is_prerelease_src (self_ : version) : bool :=\n  %s.\n',
@@ -549,11 +765,52 @@ def defs():
           'Definition bs_print_src (self_ : boundset) : res str :=\n  %s.\n',
           'Theorem bs_print_src_ok : forall bs, bs_print_src bs = bs_print bs.\n'
           'Proof. intros [[[u|u|]|[u|u|]] [[l|l|]|[l|l|]]]; try reflexivity; unfold bs_print_src, bs_print, op_gte, op_lte; cbn [bs_lower bs_upper]; try destruct (veqb _ _); reflexivity. Qed.\n'),
+      'r_intersect': (RNG, r'pub\s+fn\s+intersect\s*\(&self,\s*other:\s*&Self\)\s*->\s*Option<Self>\s*\{\s*let\s+mut\s+sets', R, 'loops',
+          'Definition r_intersect_src (self_ other_ : range) : option range :=\n  %s.\n',
+          'Theorem r_intersect_src_ok : forall a b, r_intersect_src a b = r_intersect a b.\n'
+          'Proof. intros a b. unfold r_intersect_src, r_intersect, r_intersect_list, nonempty. cbv zeta.\n'
+          '  rewrite (fold_left_flat _ (fun lefty => flat_map (fun righty => opt_to_list (bs_intersect lefty righty)) b)).\n'
+          '  - cbn [app]. destruct (flat_map _ a); reflexivity.\n'
+          '  - intros acc lefty. apply fold_left_flat. intros acc2 righty. destruct (bs_intersect lefty righty); cbn [opt_to_list]; [reflexivity | now rewrite app_nil_r]. Qed.\n'),
+      'r_difference': (RNG, r'pub\s+fn\s+difference\s*\(&self,\s*other:\s*&Self\)\s*->\s*Option<Self>\s*\{\s*let\s+mut\s+predicates', R, 'loops_res',
+          'Definition r_difference_src (self_ other_ : range) : res (option range) :=\n  %s.\n',
+          'Theorem r_difference_src_ok : forall a b, r_difference_src a b = r_difference a b.\n'
+          'Proof. intros a b. unfold r_difference_src, r_difference, nonempty. cbv zeta. rewrite r_difference_list_mconcat.\n'
+          '  change (fold_left ?f a (Ok [])) with (fold_left (lift (fun predicates lefty => f (Ok predicates) lefty)) a (Ok [])) at 1.\n'
+          '  rewrite (fold_left_res_flat _ (fun lefty => cut_all [lefty] b)).\n'
+          '  - destruct (mconcat_map _ a) as [[|x l]|]; reflexivity.\n'
+          '  - intros acc lefty. cbv beta.\n'
+          '    match goal with |- context [fold_left ?f b (Ok [lefty])] => change (fold_left f b (Ok [lefty])) with (fold_left (lift (fun remaining righty => f (Ok remaining) righty)) b (Ok [lefty])) end.\n'
+          '    rewrite (fold_left_res_chain _ cut_pieces cut_all); [destruct (cut_all [lefty] b); reflexivity | | reflexivity | reflexivity].\n'
+          '    intros rem righty. cbv beta. rewrite mfilter_concat_cut. destruct (cut_pieces rem righty); reflexivity. Qed.\n'),
+      'r_print': (RNG, r"impl\s+fmt::Display\s+for\s+Range\s*\{\s*fn\s+fmt\s*\(&self,\s*f:\s*&mut\s+fmt::Formatter<'_>\)\s*->\s*fmt::Result\s*\{", {'self': 'range'}, 'loops_res',
+          'Definition r_print_src (self_ : range) : res str :=\n  let f : str := [] in\n  %s.\n',
+          'Theorem r_print_src_ok : forall r, r_print_src r = r_print r.\n'
+          'Proof. intro r. unfold r_print_src, enumerate. cbv zeta. rewrite r_print_joined.\n'
+          '  match goal with |- context [fold_left ?f (enumerate_from 0 r) (Ok [])] => change (fold_left f (enumerate_from 0 r) (Ok [])) with (fold_left (lift (fun f0 ix => f (Ok f0) ix)) (enumerate_from 0 r) (Ok [])) end.\n'
+          '  rewrite (fold_enum_res _ bs_print (fun i => if Nat.ltb 0 i then [124; 124] else [])).\n'
+          '  - destruct (joined_res _ _ _ r); reflexivity.\n'
+          '  - intros acc i x. cbv beta iota zeta. destruct (Nat.ltb 0 i); destruct (bs_print x); cbn [rbind rmap app]; rewrite ?app_nil_r, <- ?app_assoc; reflexivity. Qed.\n'),
+      'vprint': (LIB, r"impl\s+fmt::Display\s+for\s+Version\s*\{\s*fn\s+fmt\s*\(&self,\s*f:\s*&mut\s+fmt::Formatter<'_>\)\s*->\s*fmt::Result\s*\{", {'self': 'version'}, 'loops',
+          'Definition vprint_src (self_ : version) : str :=\n  let f : str := [] in\n  %s.\n',
+          'Theorem vprint_src_ok : forall v, vprint_src v = vprint v.\n'
+          'Proof. intro v. unfold vprint_src, vprint, enumerate. cbv zeta. rewrite !print_idents_joined.\n'
+          '  rewrite (fold_enum _ print_ident (fun i => if Nat.eqb i 0 then [43] else [46])) by (intros acc i x; cbv beta iota; destruct (Nat.eqb i 0); rewrite <- ?app_assoc; reflexivity).\n'
+          '  rewrite (fold_enum _ print_ident (fun i => if Nat.eqb i 0 then [45] else [46])) by (intros acc i x; cbv beta iota; destruct (Nat.eqb i 0); rewrite <- ?app_assoc; reflexivity).\n'
+          '  repeat (progress (cbn [app]; rewrite <- ?app_assoc)). reflexivity. Qed.\n'),
+      'partial_into': (RNG, r'impl\s+From<Partial>\s+for\s+Version\s*\{\s*fn\s+from\s*\(partial:\s*Partial\)\s*->\s*Self\s*\{', {'partial': 'partial'}, False,
+          'Definition partial_into_src (partial_ : partial_t) : version :=\n  %s.\n',
+          'Theorem partial_into_src_ok : forall p, partial_into_src p = partial_into p.\nProof. reflexivity. Qed.\n'),
+      'print_ident': (LIB, r"impl\s+fmt::Display\s+for\s+Identifier\s*\{\s*fn\s+fmt\s*\(&self,\s*f:\s*&mut\s+fmt::Formatter<'_>\)\s*->\s*fmt::Result\s*\{", {'self': 'ident'}, 'loops',
+          'Definition print_ident_src (self_ : ident) : str :=\n  let f : str := [] in\n  %s.\n',
+          'Theorem print_ident_src_ok : forall i, print_ident_src i = print_ident i.\nProof. intros [n|s]; reflexivity. Qed.\n'),
     }
 USED_BY = {'is_prerelease': ['C03', 'C04'], 'version_eq': ['C04'], 'version_cmp': ['C04'], 'version_diff': ['C16'],
            'flip': ['C08'], 'predicate': ['C08'], 'at_least': ['C01'], 'at_most': ['C01'], 'exact': ['C01'],
            'bs_satisfies': ['C03', 'C06'], 'bs_allows_all': ['C10'], 'bs_allows_any': ['C09'], 'bs_intersect': ['C07'],
-           'bs_difference': ['C08', 'C06'], 'bs_print': ['C13'], 'min_version': ['C11', 'C06'], 'max_satisfying': ['C14'], 'min_satisfying': ['C14'], 'r_satisfies': ['C03', 'C01'], 'r_allows_all': ['C10'], 'r_allows_any': ['C09']}
+           'bs_difference': ['C08', 'C06'], 'bs_print': ['C13'], 'min_version': ['C11', 'C06'], 'max_satisfying': ['C14'], 'min_satisfying': ['C14'], 'r_satisfies': ['C03', 'C01'], 'r_allows_all': ['C10'], 'r_allows_any': ['C09'],
+           'r_intersect': ['C07', 'C15'], 'r_difference': ['C08', 'C15', 'C06'],
+           'r_print': ['C13'], 'vprint': ['C12', 'C13'], 'partial_into': ['C01'], 'print_ident': ['C12']}
 
 def run(only=None):
     os.makedirs(GEN, exist_ok=True)
